@@ -1,20 +1,20 @@
-import Proofs.HypervolumeNd3
+import Proofs.HypervolumeNd5b
 
-/-! The nested dimension sweep: `levelN` satisfies the level specification given the
-specification of the level below; induction over the levels; `compute` for any number of objectives
-(point sets strictly inside the reference box). -/
+/-! `levelN` under the relativised invariant; induction over the levels; `compute` for the larger class
+(boundary coordinates in the objectives `0, 1, 2, 3` and the last one — everything for `m ≤ 5`). -/
 
 namespace DH.Hypervolume
 open DH.Pareto (Vec wdVec)
 
-/-- **the general branch of `hvRecursive` satisfies the level specification** -/
-theorem levelN_general {R : Run} (hR : R.OK) {d : Nat} (hd2 : 2 ≤ d) (hdm : d < R.m)
-    (rec : List Nat → St → Rat × St) (hrec : Spec R (d - 1) rec) :
-    Spec R d (fun S st => levelN true d rec (R.lk d S) st) := by
+/-- **the general branch of `hvRecursive` satisfies the relativised level specification** -/
+theorem levelN_L {R : Run} (hR : R.OK5) {d : Nat} (hd2 : 2 ≤ d) (hdm : d < R.m)
+    (rec : List Nat → St → Rat × St) (hrec : SpecL R (d - 1) rec) :
+    SpecL R d (fun S st => levelN true d rec (R.lk d S) st) := by
   intro S st hSne hSnd hSlt hW hC hF
+  have hB := hR.toBase
   -- list d
-  have hl := listD_lk hR.toBase hdm hSlt
-  have hmem : ∀ x, x ∈ R.lk d S ↔ x ∈ S := fun x => mem_lk hR.toBase hdm hSlt
+  have hl := listD_lk hB hdm hSlt
+  have hmem : ∀ x, x ∈ R.lk d S ↔ x ∈ S := fun x => mem_lk hB hdm hSlt
   generalize hldef : R.lk d S = l at hl hmem
   have hlne : l ≠ [] := by
     obtain ⟨x, hx⟩ := List.exists_mem_of_ne_nil S hSne
@@ -29,11 +29,11 @@ theorem levelN_general {R : Run} (hR : R.OK) {d : Nat} (hd2 : 2 ≤ d) (hdm : d 
     fun i => by rw [(hrr.node i).1]; exact hW.cargo i,
     fun i hi => by rw [(hrr.node i).2.1, (hrr.node i).2.2.1]; exact hW.alen i hi,
     by rw [hrr.bounds]; exact hW.bnd⟩
-  have hC1 : ∀ k, 2 ≤ k → k ≤ d → Cache R k S st1 := fun k hk2 hkd =>
+  have hC1 : ∀ k, 2 ≤ k → k ≤ d → CacheL R k S st1 := fun k hk2 hkd =>
     (hC k hk2 hkd).congr (fun x => by rw [(hrr.node x).2.1, (hrr.node x).2.2.1]; exact ⟨rfl, rfl⟩)
       (by rw [hrr.bounds])
   have hflag1 : ∀ x ∈ l, (st1.node x).ignore = 0 ∨ d ≤ (st1.node x).ignore := hrl
-  have hF1 : AllFI R S st1 := by
+  have hF1 : AllFIG R S st1 := by
     intro x hx
     rcases hflag1 x ((hmem x).mpr hx) with h0 | hge
     · exact Or.inl h0
@@ -76,10 +76,10 @@ theorem levelN_general {R : Run} (hR : R.OK) {d : Nat} (hd2 : 2 ≤ d) (hdm : d 
   have hKnd : (kr.reverse ++ [q]).Nodup := by
     have := hl.nodup; rw [hlsplit] at this; exact (List.nodup_append.mp this).1
   have hRm_l : ∀ x ∈ Rm, x ∈ l := fun x hx => by rw [hlsplit]; exact List.mem_append.mpr (Or.inr hx)
-  have hC2 : ∀ k, 2 ≤ k → k < d → Cache R k (kr.reverse ++ [q]) st2 := by
+  have hC2 : ∀ k, 2 ≤ k → k < d → CacheL R k (kr.reverse ++ [q]) st2 := by
     intro k hk2 hkd
     have hkb : k < st1.bounds.length := by rw [hW1.blen]; omega
-    refine Cache.restrict hR.toBase (by omega) (hC1 k hk2 (by omega)) ?_ (fun x => by rw [hnode2 x]; exact ⟨rfl, rfl⟩)
+    refine CacheL.restrict hB (by omega) (hC1 k hk2 (by omega)) ?_ (fun x => by rw [hnode2 x]; exact ⟨rfl, rfl⟩)
       (hblt2 k hkd hkb).1
     intro y hy
     constructor
@@ -94,44 +94,43 @@ theorem levelN_general {R : Run} (hR : R.OK) {d : Nat} (hd2 : 2 ≤ d) (hdm : d 
         exact absurd hy (not_lt.mpr this)
     · intro hyK; exact (hmem y).mp (hKsub y hyK)
   -- flags after the unlink loop
-  have hjust_l : ∀ x ∈ l, JustL R d l st2 x := by
+  have hjust_l : ∀ x ∈ l, JustLG R d l st2 x := by
     intro x hx
-    unfold JustL
+    unfold JustLG
     rw [hnode2 x]
     rcases hflag1 x hx with h0 | hge
     · exact Or.inl h0
     · rcases hF1 x ((hmem x).mp hx) with h0 | ⟨hem, hj⟩
       · exact Or.inl h0
       · refine Or.inr ⟨hge, hem, ?_⟩
-        rcases hj with ⟨r, hrS, hrx, hbef, hdom⟩ | hz
+        rcases hj with ⟨r, hrS, hrx, hbef, hdom⟩ | hz | ⟨z, hzS, hzr⟩
         · exact Or.inl ⟨r, (hmem r).mpr hrS, hrx, hbef, hdom⟩
-        · exact Or.inr hz
-  have hF2 : AllFI R (kr.reverse ++ [q]) st2 := by
-    intro x hx
-    rcases hjust_l x (hKsub x hx) with h0 | ⟨hde, hem, hj⟩
-    · exact Or.inl h0
-    rcases hj with ⟨r, hrl', hrx, hbef, hdom⟩ | hz
-    · refine Or.inr ⟨hem, Or.inl ⟨r, ?_, hrx, hbef, hdom⟩⟩
-      have hr : r < R.rel.length := hl.lt r hrl'
-      have hxlt : x < R.rel.length := hKlt x hx
-      have hdl := dom_lower hR.toBase hr hxlt ((st2.node x).ignore - 1 - (d - 1)) (d - 1) (by omega) (by
-        have : d - 1 + ((st2.node x).ignore - 1 - (d - 1)) = (st2.node x).ignore - 1 := by omega
-        rw [this]; exact hdom)
-      have hbd : Before (R.orders.getD d []) r x :=
-        before_lower hR.ord ((st2.node x).ignore - d) d (st2.node x).ignore hem (by omega) hbef
-          (fun k hk1 hk2 => hdl.2 k (by omega) (by omega))
-      exact Before.mem_prefix hl.nodup hlsplit (hl.of_before r x hrl' (hKsub x hx) hbd) hx
-    · exact Or.inr ⟨hem, Or.inr hz⟩
+        · exact Or.inr (Or.inl hz)
+        · exact Or.inr (Or.inr ⟨z, (hmem z).mpr hzS, hzr⟩)
+  have hF2 : AllFIG R (kr.reverse ++ [q]) st2 := fun x hx =>
+    justG_prefix hR hd2 hl hlsplit hx (hjust_l x (hKsub x hx))
+  -- nodes of list d strictly below bounds[d]: a live set is live one level down
+  have hpred : ∀ P x, (∀ y ∈ P ++ [x], zc R.rel d y ≤ zc R.rel d x) → zc R.rel d x < st1.bounds.getD d 0 →
+      Live R d (P ++ [x]) → Live R (d - 1) (P ++ [x]) := by
+    intro P x hle hz hlive
+    exact hlive.pred (fun y hy => lt_of_le_of_lt (hle y hy) (lt_of_lt_of_le hz (hW1.bnd d)))
+  have hsorted_pre : ∀ P x post, l = P ++ x :: post → ∀ y ∈ P ++ [x], zc R.rel d y ≤ zc R.rel d x := by
+    intro P x post hsplit y hy
+    rcases List.mem_append.mp hy with hy | hy
+    · have hs := hl.sorted
+      rw [hsplit] at hs
+      exact (List.pairwise_append.mp hs).2.2 y hy x (by simp)
+    · simp only [List.mem_singleton] at hy; subst hy; exact le_refl _
   -- the kept nodes in front of q hold valid level-d values
-  have hLv2 : LvlVals R d l kr.reverse st2 := by
+  have hLv2 : LvlValsL R d l kr.reverse st2 := by
     intro P x post hsplit hx
     rw [hnode2 x]
     have hcache := hC1 d hd2 (Nat.le_refl _)
-    unfold Cache at hcache
+    unfold CacheL at hcache
     rw [hldef] at hcache
     suffices hz : zc R.rel d x < st1.bounds.getD d 0 by
-      obtain ⟨h1, h2⟩ := hcache P x post hsplit hz
-      exact ⟨⟨le_of_eq h1, fun _ => h1⟩, h2⟩
+      exact ⟨fun hlive => (hcache P x post hsplit hz hlive).1,
+        fun hlive => (hcache P x post hsplit hz (hpred P x (hsorted_pre P x post hsplit) hz hlive)).2⟩
     -- x is strictly below bounds[d]
     cases kr with
     | nil => simp at hx
@@ -149,24 +148,24 @@ theorem levelN_general {R : Run} (hR : R.OK) {d : Nat} (hd2 : 2 ≤ d) (hdm : d 
         · exact le_refl _
       exact lt_of_le_of_lt hxle hq'b
   -- step 3: the start node
-  have hstart : ∃ st3, startNode true d q kr.head? st2 = (volSum R.rel d (kr.reverse ++ [q]), st3) ∧
-      WF R st3 ∧ (∀ k, 2 ≤ k → k < d → Cache R k (kr.reverse ++ [q]) st3) ∧
-      AllFI R (kr.reverse ++ [q]) st3 ∧ LvlVals R d l kr.reverse st3 ∧ Frame d (kr.reverse ++ [q]) st2 st3 ∧
+  have hstart : ∃ v st3, startNode true d q kr.head? st2 = (v, st3) ∧
+      (Live R d (kr.reverse ++ [q]) → v = volSum R.rel d (kr.reverse ++ [q])) ∧
+      WF R st3 ∧ (∀ k, 2 ≤ k → k < d → CacheL R k (kr.reverse ++ [q]) st3) ∧
+      AllFIG R (kr.reverse ++ [q]) st3 ∧ LvlValsL R d l kr.reverse st3 ∧ Frame d (kr.reverse ++ [q]) st2 st3 ∧
       (∀ x, x ≠ q → st3.node x = st2.node x) ∧
       ((kr.head? = none ∧ kr.reverse = []) ∨ (∃ q', kr.head? = some q' ∧ q' ∈ kr.reverse ∧
-        (st3.node q').area.getD d 0 ≤ Vk R.rel (d - 1) kr.reverse ∧
-        (zc R.rel d q' < 0 → (st3.node q').area.getD d 0 = Vk R.rel (d - 1) kr.reverse))) := by
+        (Live R (d - 1) kr.reverse → (st3.node q').area.getD d 0 = Vk R.rel (d - 1) kr.reverse))) := by
     cases kr with
     | nil =>
       have hq : q < R.rel.length := hKlt q (by simp)
       have hqn : q < st2.nodes.length := by rw [hW2.len]; exact hq
       have hdl : d < (st2.node q).area.length := by rw [(hW2.alen q hq).1]; exact hdm
-      refine ⟨st2.setNode q { st2.node q with area := areaInit true d (st2.node q).area (st2.node q).cargo },
-        rfl, ?_, ?_, ?_, ?_, ?_, fun x hx => node_setNode_ne st2 q x _ (Ne.symm hx), Or.inl ⟨rfl, rfl⟩⟩
+      refine ⟨0, st2.setNode q { st2.node q with area := areaInit true d (st2.node q).area (st2.node q).cargo },
+        rfl, fun _ => rfl, ?_, ?_, ?_, ?_, ?_, fun x hx => node_setNode_ne st2 q x _ (Ne.symm hx), Or.inl ⟨rfl, rfl⟩⟩
       · exact WF.setNode hW2 q _ rfl (areaInit_len d _ _ hdl) rfl
-      · intro k hk2 hkd P x post hsplit hz
+      · intro k hk2 hkd P x post hsplit hz hlive
         have hlk1 : R.lk k ([].reverse ++ [q]) = [q] := by
-          have hp := lk_perm hR.toBase (show k < R.m by omega) (S := [q]) (by simpa using hq) (by simp)
+          have hp := lk_perm hB (show k < R.m by omega) (S := [q]) (by simpa using hq) (by simp)
           exact List.perm_singleton.mp hp
         rw [hlk1] at hsplit
         have hP : P = [] ∧ x = q := by
@@ -179,10 +178,10 @@ theorem levelN_general {R : Run} (hR : R.OK) {d : Nat} (hd2 : 2 ≤ d) (hdm : d 
         · show (areaInit true d (st2.node x).area (st2.node x).cargo).getD k 0 = _
           show _ = Vk R.rel (k - 1) [x]
           rw [areaInit_mid d _ _ hdl k (by omega) (by omega), hW2.cargo x,
-            Vk_single hR.toBase hq (show k - 1 < R.m by omega)]
+            Vk_single hB hq (show k - 1 < R.m by omega)]
           have : k - 1 + 1 = k := by omega
           rw [this]
-        · have hold := hC2 k hk2 hkd [] x [] (by rw [hlk1]; rfl) hz
+        · have hold := hC2 k hk2 hkd [] x [] (by rw [hlk1]; rfl) hz hlive
           exact hold.2
       · intro x hx
         refine (hF2 x hx).congr ?_
@@ -197,42 +196,40 @@ theorem levelN_general {R : Run} (hR : R.OK) {d : Nat} (hd2 : 2 ≤ d) (hdm : d 
           fun _ => rfl, fun h => h⟩
     | cons q' kr' =>
       have hq'mem : q' ∈ (q' :: kr').reverse := by simp
-      have hvals := hLv2 kr'.reverse q' (q :: Rm) (by rw [hlsplit]; simp) hq'mem
-      -- q' is strictly below bounds[d], its cached values are exact
+      have hsplitq' : l = kr'.reverse ++ q' :: (q :: Rm) := by rw [hlsplit]; simp
+      have hvals := hLv2 kr'.reverse q' (q :: Rm) hsplitq' hq'mem
+      have hrevq' : (q' :: kr').reverse = kr'.reverse ++ [q'] := by simp
+      -- q' is strictly below bounds[d]
       have hq'b : zc R.rel d q' < st1.bounds.getD d 0 := by
         have := (hstop q q' kr' rfl).2; rw [hzc st1 hW1] at this; exact not_le.mp this
-      have hq'neg : zc R.rel d q' < 0 := lt_of_lt_of_le hq'b (hW1.bnd d)
-      have hq'eq := hvals.1.2 hq'neg
-      have hrevq' : (q' :: kr').reverse = kr'.reverse ++ [q'] := by simp
-      refine ⟨st2, ?_, hW2, hC2, hF2, hLv2, Frame.refl _ _ _, fun _ _ => rfl,
-        Or.inr ⟨q', rfl, hq'mem, by rw [hq'eq, hrevq'], fun _ => by rw [hq'eq, hrevq']⟩⟩
-      simp only [startNode, List.head?_cons]
-      rw [hq'eq, hvals.2, hzc st2 hW2, hzc st2 hW2]
+      refine ⟨(st2.node q').volume.getD d 0 + (st2.node q').area.getD d 0 *
+          (co (st2.node q).cargo d - co (st2.node q').cargo d), st2, rfl, ?_, hW2, hC2, hF2, hLv2,
+        Frame.refl _ _ _, fun _ _ => rfl,
+        Or.inr ⟨q', rfl, hq'mem, fun hlive => by rw [hrevq'] at hlive ⊢; exact hvals.1 hlive⟩⟩
+      intro hlive
+      have hliveK : Live R d (kr'.reverse ++ [q']) :=
+        hlive.subset (fun x hx => by rw [hrevq']; exact List.mem_append.mpr (Or.inl hx))
+      have hlive1 := hpred kr'.reverse q' (hsorted_pre _ _ _ hsplitq') hq'b hliveK
+      rw [hvals.1 hlive1, hvals.2 hliveK, hzc st2 hW2, hzc st2 hW2]
       have := volSum_snoc R.rel d kr'.reverse q' q
       simp only [List.reverse_cons]
       rw [this]
-  obtain ⟨st3, hs3, hW3, hC3, hF3, hLv3, hFr3, hoth3, hprev3⟩ := hstart
+  obtain ⟨v3, st3, hs3, hv3, hW3, hC3, hF3, hLv3, hFr3, hoth3, hprev3⟩ := hstart
   -- step 4: settle the start node
   have hbefore_q : ∀ r ∈ kr.reverse, Before (R.orders.getD d []) r q := by
     rw [← hldef] at hlsplit
-    have := (listD_lk hR.toBase hdm hSlt).before_of kr.reverse q Rm (by rw [hlsplit]; simp)
+    have := (listD_lk hB hdm hSlt).before_of kr.reverse q Rm (by rw [hlsplit]; simp)
     exact this
   obtain ⟨hW4, hC4, hF4, hA4, hV4, hFr4, hoth4, hbd4⟩ :=
-    settle_general hR hd2 hdm rec hrec kr.reverse q kr.head? (volSum R.rel d (kr.reverse ++ [q])) st3
-      hKnd hKlt hW3 hC3 hF3 hbefore_q
-      (by intro y hy
-          have := hl.sorted
-          rw [hlsplit] at this
-          simp only [List.append_assoc] at this
-          exact (List.pairwise_append.mp this).2.2 y hy q (by simp))
-      hprev3
-  generalize hst4 : settle d rec q kr.head? (kr.reverse ++ [q]) (volSum R.rel d (kr.reverse ++ [q])) st3 = st4
+    settle_L hB hd2 hdm rec hrec kr.reverse q kr.head? v3 st3
+      hKnd hKlt hW3 hC3 hF3 hbefore_q hprev3
+  generalize hst4 : settle d rec q kr.head? (kr.reverse ++ [q]) v3 st3 = st4
     at hW4 hC4 hF4 hA4 hV4 hFr4 hoth4 hbd4
   have hq_notK0 : q ∉ kr.reverse := by
     have := List.nodup_append.mp hKnd
     intro h; exact this.2.2 q h q (by simp) rfl
   -- step 5: the re-insertion loop
-  have hLv4 : LvlVals R d l (kr.reverse ++ [q]) st4 := by
+  have hLv4 : LvlValsL R d l (kr.reverse ++ [q]) st4 := by
     intro P x post hsplit hx
     rcases List.mem_append.mp hx with hx | hx
     · have hxq : x ≠ q := fun h => hq_notK0 (h ▸ hx)
@@ -242,8 +239,8 @@ theorem levelN_general {R : Run} (hR : R.OK) {d : Nat} (hd2 : 2 ≤ d) (hdm : d 
     · simp only [List.mem_singleton] at hx; subst hx
       have := (nodup_split_unique hl.nodup hsplit (show l = kr.reverse ++ x :: Rm by rw [hlsplit]; simp)).1
       subst this
-      exact ⟨hA4, hV4⟩
-  have hJ4 : ∀ x ∈ Rm, JustL R d l st4 x := by
+      exact ⟨hA4, fun hlive => by rw [hV4]; exact hv3 hlive⟩
+  have hJ4 : ∀ x ∈ Rm, JustLG R d l st4 x := by
     intro x hx
     have hxnot : x ∉ kr.reverse ++ [q] := by
       have := hl.nodup; rw [hlsplit] at this
@@ -251,12 +248,12 @@ theorem levelN_general {R : Run} (hR : R.OK) {d : Nat} (hd2 : 2 ≤ d) (hdm : d 
     have hxq : x ≠ q := fun h => hxnot (by simp [h])
     have hsame : st4.node x = st2.node x := by rw [hFr4.out x hxnot, hoth3 x hxq]
     have := hjust_l x (hRm_l x hx)
-    unfold JustL at this ⊢
+    unfold JustLG at this ⊢
     rw [hsame]; exact this
   obtain ⟨K0', q', e1, e2, e3, e4, e5, e6, e7, e8, e9⟩ :=
-    reinsertLoop_general hR hd2 hdm rec hrec l hl Rm kr.reverse q (kr.reverse ++ [q])
-      (volSum R.rel d (kr.reverse ++ [q])) st4 hlsplit (fun x hx => hx) hW4 hC4 hF4 hA4 rfl hLv4 hJ4
-  generalize hout : reinsertLoop d rec Rm q (kr.reverse ++ [q]) (volSum R.rel d (kr.reverse ++ [q])) st4 = out
+    reinsertLoop_L hR hd2 hdm rec hrec l hl Rm kr.reverse q (kr.reverse ++ [q])
+      v3 st4 hlsplit (fun x hx => hx) hW4 hC4 hF4 hA4 hv3 hLv4 hJ4
+  generalize hout : reinsertLoop d rec Rm q (kr.reverse ++ [q]) v3 st4 = out
     at e2 e3 e4 e5 e6 e7 e8 e9
   -- assemble
   have hval : levelN true d rec l st = finish d out := by
@@ -268,18 +265,21 @@ theorem levelN_general {R : Run} (hR : R.OK) {d : Nat} (hd2 : 2 ≤ d) (hdm : d 
     rw [hs3]
     dsimp only
     rw [show (q :: kr).reverse = kr.reverse ++ [q] by simp, hst4, hout]
-  show (levelN true d rec (R.lk d S) st).1 = Vk R.rel d S ∧ WF R (levelN true d rec (R.lk d S) st).2 ∧
-    (∀ k, 2 ≤ k → k ≤ d → Cache R k S (levelN true d rec (R.lk d S) st).2) ∧
-    AllFI R S (levelN true d rec (R.lk d S) st).2 ∧ Frame d S st (levelN true d rec (R.lk d S) st).2
+  show (Live R d S → (levelN true d rec (R.lk d S) st).1 = Vk R.rel d S) ∧ WF R (levelN true d rec (R.lk d S) st).2 ∧
+    (∀ k, 2 ≤ k → k ≤ d → CacheL R k S (levelN true d rec (R.lk d S) st).2) ∧
+    AllFIG R S (levelN true d rec (R.lk d S) st).2 ∧ Frame d S st (levelN true d rec (R.lk d S) st).2
   rw [hldef, hval]
   have hfin2 : (finish d out).2 = out.2.2 := rfl
   have hfin1 : (finish d out).1 = out.2.1 - (out.2.2.node out.1).area.getD d 0 * co (out.2.2.node out.1).cargo d := rfl
-  rw [hfin2, hfin1, e2, e3, hzc out.2.2 e5]
+  rw [hfin2, hfin1, e2, hzc out.2.2 e5]
   have hlS : ∀ x, x ∈ l ↔ x ∈ S := hmem
   have hq'l : q' ∈ l := by rw [e1]; simp
   have hq'lt : q' < R.rel.length := hl.lt q' hq'l
   refine ⟨?_, e5, ?_, ?_, ?_⟩
   · -- the value
+    intro hliveS
+    have hlivel : Live R d l := hliveS.subset (fun x hx => (hlS x).mp hx)
+    rw [e3 hlivel]
     obtain ⟨dd, rfl⟩ : ∃ dd, d = dd + 1 := ⟨d - 1, by omega⟩
     have hlast := Vk_last hR.rect hdm K0' q' (by rw [← e1]; exact hl.lt) (by rw [← e1]; exact hl.sorted)
       (by rw [← e1]; intro i hi; exact (hR.inter i (dd + 1) (hl.lt i hi) hdm).2)
@@ -287,25 +287,32 @@ theorem levelN_general {R : Run} (hR : R.OK) {d : Nat} (hd2 : 2 ≤ d) (hdm : d 
     simp only [Nat.add_sub_cancel] at hlast e4 ⊢
     rw [← Vk_congr R.rel (dd + 1) hlS, hlast]
     by_cases hz : zc R.rel (dd + 1) q' < 0
-    · rw [e4.2 hz]; ring
+    · have hlive1 : Live R dd l := by
+        have := hlivel.pred (fun y hy => by
+          have hs := hl.sorted
+          rw [e1] at hs hy
+          rcases List.mem_append.mp hy with hy | hy
+          · exact lt_of_le_of_lt ((List.pairwise_append.mp hs).2.2 y hy q' (by simp)) hz
+          · simp only [List.mem_singleton] at hy; subst hy; exact hz)
+        simpa using this
+      rw [e4 hlive1]; ring
     · have h0 : zc R.rel (dd + 1) q' = 0 := le_antisymm (hR.inter q' (dd + 1) hq'lt hdm).2 (not_lt.mp hz)
       rw [h0]; ring
   · intro k hk2 hkd
     by_cases hkd' : k < d
     · have := e6 k hk2 hkd'
-      unfold Cache at this ⊢
+      unfold CacheL at this ⊢
       rw [lk_congr (k := k) hlS] at this
       exact this
     · have hkd'' : k = d := by omega
       subst hkd''
-      intro P x post hsplit hz
+      intro P x post hsplit hz hlive
       rw [hldef] at hsplit
-      have hxneg : zc R.rel k x < 0 := lt_of_lt_of_le hz (e5.bnd k)
       obtain ⟨h1, h2⟩ := e9 P x post hsplit (by
         have : x ∈ l := by rw [hsplit]; simp
         rw [hlsplit] at this
         simpa [List.mem_append] using this)
-      exact ⟨h1.2 hxneg, h2⟩
+      exact ⟨h1 hlive, h2 (hlive.mono (by omega))⟩
   · intro x hx
     exact (e7 x ((hlS x).mpr hx)).mono (fun y hy => (hlS y).mp hy)
   · have hFr2 : Frame d S st1 st2 :=
@@ -317,16 +324,11 @@ theorem levelN_general {R : Run} (hR : R.OK) {d : Nat} (hd2 : 2 ≤ d) (hdm : d 
 
 /-! ### induction over the recursion levels -/
 
-theorem hvRecursive_succ_succ (cum : Bool) (orders : List (List Nat)) (d : Nat) (S : List Nat) (st : St)
-    (h : S.isEmpty = false) :
-    hvRecursive cum orders (d + 2) S st
-      = levelN cum (d + 2) (hvRecursive cum orders (d + 1)) (linked orders (d + 2) S) st := by
-  rw [hvRecursive, h]
-  rfl
-
-/-- level 1 (the 2-D sweep) satisfies the level specification; it does not touch the state -/
-theorem spec_one {R : Run} (hR : R.Base) (hm : 1 < R.m) : Spec R 1 (hvRecursive true R.orders 1) := by
+/-- level 1 (the 2-D sweep) satisfies the relativised level specification; it does not touch the state
+and its value is exact for every linked set -/
+theorem spec_one_L {R : Run} (hR : R.Base) (hm : 1 < R.m) : SpecL R 1 (hvRecursive true R.orders 1) := by
   intro S st hSne hSnd hSlt hW _ hF
+  -- value, `WF` and `Frame` from the unrelativised statement on a state without flags
   have hemp : S.isEmpty = false := by cases S <;> simp_all
   have hval : hvRecursive true R.orders 1 S st
       = (sweep2 ((R.lk 1 S).map (fun i => R.rel.getD i [])), st) := by
@@ -334,9 +336,8 @@ theorem spec_one {R : Run} (hR : R.Base) (hm : 1 < R.m) : Spec R 1 (hvRecursive 
     congr 2
     exact List.map_congr_left (fun i _ => hW.cargo i)
   rw [hval]
-  refine ⟨?_, hW, fun k hk2 hk1 => by omega, ?_, Frame.refl _ _ _⟩
-  · -- the value
-    have hlklt : ∀ i ∈ R.lk 1 S, i < R.rel.length := fun i hi => hSlt i ((mem_lk hR hm hSlt).mp hi)
+  refine ⟨fun _ => ?_, hW, fun k hk2 hk1 => by omega, ?_, Frame.refl _ _ _⟩
+  · have hlklt : ∀ i ∈ R.lk 1 S, i < R.rel.length := fun i hi => hSlt i ((mem_lk hR hm hSlt).mp hi)
     set L1 := (R.lk 1 S).map (fun i => R.rel.getD i []) with hL1
     have hrectL : Rect 2 (L1.map pi2) := by
       intro p hp; obtain ⟨q, _, rfl⟩ := List.mem_map.mp hp; rfl
@@ -369,13 +370,13 @@ theorem spec_one {R : Run} (hR : R.Base) (hm : 1 < R.m) : Spec R 1 (hvRecursive 
     · exact Or.inl h0
     · exact hF x hx (by omega)
 
-/-- **every level of the nested sweep satisfies its specification** -/
-theorem spec_all {R : Run} (hR : R.OK) : ∀ (j : Nat), j + 1 < R.m →
-    Spec R (j + 1) (hvRecursive true R.orders (j + 1))
-  | 0, hm => spec_one hR.toBase hm
+/-- **every level of the nested sweep satisfies the relativised specification** -/
+theorem spec_all_L {R : Run} (hR : R.OK5) : ∀ (j : Nat), j + 1 < R.m →
+    SpecL R (j + 1) (hvRecursive true R.orders (j + 1))
+  | 0, hm => spec_one_L hR.toBase hm
   | j + 1, hm => by
-    have ih := spec_all hR j (by omega)
-    have hlev := levelN_general hR (d := j + 2) (by omega) hm (hvRecursive true R.orders (j + 1)) ih
+    have ih := spec_all_L hR j (by omega)
+    have hlev := levelN_L hR (d := j + 2) (by omega) hm (hvRecursive true R.orders (j + 1)) ih
     intro S st hSne hSnd hSlt hW hC hF
     have hemp : S.isEmpty = false := by cases S <;> simp_all
     have := hlev S st hSne hSnd hSlt hW hC hF
@@ -383,62 +384,15 @@ theorem spec_all {R : Run} (hR : R.OK) : ∀ (j : Nat), j + 1 < R.m →
     rw [hvRecursive_succ_succ true R.orders j S st hemp]
     exact this
 
-/-! ### `compute` for any number of objectives -/
+/-! ### `compute` for the larger class -/
 
-theorem co_subVec : ∀ (p ref : Vec) (k : Nat), p.length = ref.length → k < ref.length →
-    co (subVec p ref) k = co p k - co ref k
-  | [], [], _, _, h => by simp at h
-  | [], _ :: _, _, h, _ => by simp at h
-  | _ :: _, [], _, h, _ => by simp at h
-  | a :: as, b :: bs, 0, _, _ => by simp [subVec, co]
-  | a :: as, b :: bs, k + 1, hl, hk => by
-    have := co_subVec as bs k (by simpa using hl) (by simpa using hk)
-    simpa [subVec, co] using this
-
-theorem co_of_ltVec : ∀ (p ref : Vec) (k : Nat), ltVec p ref = true → k < ref.length → co p k < co ref k
-  | [], [], _, _, h => by simp at h
-  | [], _ :: _, _, h, _ => by simp [ltVec] at h
-  | _ :: _, [], _, h, _ => by simp [ltVec] at h
-  | a :: as, b :: bs, 0, h, _ => by
-    simp only [ltVec, Bool.and_eq_true, decide_eq_true_eq] at h
-    simpa [co] using h.1
-  | a :: as, b :: bs, k + 1, h, hk => by
-    simp only [ltVec, Bool.and_eq_true, decide_eq_true_eq] at h
-    have := co_of_ltVec as bs k h.2 (by simpa using hk)
-    simpa [co] using this
-
-theorem initNode_alen (rel : List Vec) (m : Nat) (bounds : List Rat) (i : Nat) (hi : i < rel.length) :
-    ((⟨rel.map (fun p => ⟨p, 0, List.replicate m 0, List.replicate m 0⟩), bounds⟩ : St).node i).area.length = m ∧
-    ((⟨rel.map (fun p => ⟨p, 0, List.replicate m 0, List.replicate m 0⟩), bounds⟩ : St).node i).volume.length = m := by
-  rw [initNode_eq rel m bounds i hi]; simp
-
-theorem hvRecursive_nil (cum : Bool) (orders : List (List Nat)) (st : St) : ∀ d : Nat,
-    (hvRecursive cum orders d [] st).1 = 0
-  | 0 => by simp [hvRecursive]
-  | 1 => by simp [hvRecursive]
-  | d + 2 => by simp [hvRecursive]
-
-theorem co_of_wdVec : ∀ (p ref : Vec) (k : Nat), wdVec p ref = true → k < ref.length → co p k ≤ co ref k
-  | [], [], _, _, h => by simp at h
-  | [], _ :: _, _, h, _ => by simp [wdVec] at h
-  | _ :: _, [], _, h, _ => by simp [wdVec] at h
-  | a :: as, b :: bs, 0, h, _ => by
-    simp only [wdVec, Bool.and_eq_true, decide_eq_true_eq] at h
-    simpa [co] using h.1
-  | a :: as, b :: bs, k + 1, h, hk => by
-    simp only [wdVec, Bool.and_eq_true, decide_eq_true_eq] at h
-    have := co_of_wdVec as bs k h.2 (by simpa using hk)
-    simpa [co] using this
-
-/-- **`_HyperVolume(ref).compute(front)` for any number `m ≥ 2` of objectives**: shift, `preProcess`,
-the nested dimension sweep with its `ignore` flags, cached `area`/`volume` and shared `bounds`.
-The front lies weakly below the reference (and above the sentinel `-1.0e308`); `hcls`: a coordinate
-may EQUAL the reference's only in the objectives `0, 1, 2` and in the last one — no restriction
-for `m ≤ 4`. -/
-theorem compute_nd (ref : Vec) (front : List Vec) (hm : 2 ≤ ref.length) (hrect : Rect ref.length front)
+/-- **`_HyperVolume(ref).compute(front)` for any number `m ≥ 2` of objectives**, front weakly below the
+reference (and above the sentinel `-1.0e308`); `hcls`: a coordinate may EQUAL the reference's only in the
+objectives `0, 1, 2, 3` and in the last one — no restriction for `m ≤ 5`. -/
+theorem compute_nd5 (ref : Vec) (front : List Vec) (hm : 2 ≤ ref.length) (hrect : Rect ref.length front)
     (hle : ∀ p ∈ front, wdVec p ref = true)
     (hbig : ∀ p ∈ front, ∀ k, k < ref.length → negInf < co p k - co ref k)
-    (hcls : ∀ p ∈ front, ∀ k, k < ref.length → co p k = co ref k → k ≤ 2 ∨ k + 1 = ref.length) :
+    (hcls : ∀ p ∈ front, ∀ k, k < ref.length → co p k = co ref k → k ≤ 3 ∨ k + 1 = ref.length) :
     compute ref front = some (hv ref front) := by
   have hsh := shift_eq ref front
   have htr : hv (subVec ref ref) (front.map (fun p => subVec p ref)) = hv ref front :=
@@ -447,7 +401,7 @@ theorem compute_nd (ref : Vec) (front : List Vec) (hm : 2 ≤ ref.length) (hrect
   simp only [compute, computeV, hm0, if_false, hsh, Option.some.injEq]
   have hrectrel0 : Rect ref.length (front.map (fun p => subVec p ref)) := rect_shift rfl hrect
   have hinter0 : ∀ p ∈ front.map (fun p => subVec p ref), ∀ k, k < ref.length →
-      (negInf < co p k ∧ co p k ≤ 0) ∧ (co p k = 0 → k ≤ 2 ∨ k + 1 = ref.length) := by
+      (negInf < co p k ∧ co p k ≤ 0) ∧ (co p k = 0 → k ≤ 3 ∨ k + 1 = ref.length) := by
     intro p hp k hk
     obtain ⟨q, hq, rfl⟩ := List.mem_map.mp hp
     rw [co_subVec q ref k (hrect q hq) hk]
@@ -463,10 +417,10 @@ theorem compute_nd (ref : Vec) (front : List Vec) (hm : 2 ≤ ref.length) (hrect
     exact hvRecursive_nil _ _ _ _
   -- the run
   let R : Run := ⟨rel, m, preOrders true rel m⟩
-  have hR : R.OK := ⟨⟨hrectrel0, fun i k hi hk => (hinter0 _ (getD_mem hi) k hk).1, preOrders_ok rel m⟩,
+  have hR : R.OK5 := ⟨⟨hrectrel0, fun i k hi hk => (hinter0 _ (getD_mem hi) k hk).1, preOrders_ok rel m⟩,
     fun i k hi hk h0 => (hinter0 _ (getD_mem hi) k hk).2 h0⟩
   obtain ⟨j, rfl⟩ : ∃ j, m = j + 2 := ⟨m - 2, by omega⟩
-  have hspec := spec_all hR j (by show j + 1 < j + 2; omega)
+  have hspec := spec_all_L hR j (by show j + 1 < j + 2; omega)
   have hpos : 0 < rel.length := List.length_pos_iff.mpr hne
   have hneg0 : negInf ≤ 0 := by
     have := (hR.inter 0 0 hpos (by show 0 < j + 2; omega))
@@ -483,8 +437,8 @@ theorem compute_nd (ref : Vec) (front : List Vec) (hm : 2 ≤ ref.length) (hrect
     intro h
     have hlen := congrArg List.length h
     rw [List.length_range, List.length_nil] at hlen; omega
-  have hC0 : ∀ k, 2 ≤ k → k ≤ j + 1 → Cache R k (List.range rel.length) st0 := by
-    intro k _ hk P x post hsplit hz
+  have hC0 : ∀ k, 2 ≤ k → k ≤ j + 1 → CacheL R k (List.range rel.length) st0 := by
+    intro k _ hk P x post hsplit hz _
     exfalso
     have hxl : x ∈ R.lk k (List.range rel.length) := by rw [hsplit]; simp
     have hx : x < rel.length := by
@@ -496,13 +450,19 @@ theorem compute_nd (ref : Vec) (front : List Vec) (hm : 2 ≤ ref.length) (hrect
       simp [show k < j + 2 by omega]
     rw [hb] at hz
     exact absurd (hR.inter x k hx (by show k < j + 2; omega)).1 (not_lt.mpr (le_of_lt hz))
-  have hF0 : FIge R (j + 1) (List.range rel.length) st0 :=
+  have hF0 : FIgeG R (j + 1) (List.range rel.length) st0 :=
     fun x _ _ => Or.inl (initNode_ignore rel (j + 2) _ x)
   obtain ⟨hres, _⟩ := hspec (List.range rel.length) st0 hSne List.nodup_range
     (fun i hi => List.mem_range.mp hi) hW0 hC0 hF0
+  -- the whole set is live at the top level: there is no objective between `m-1` and the last one
+  have hlive : Live R (j + 1) (List.range rel.length) := by
+    intro x _ i hi him
+    exfalso
+    have : i + 1 < j + 2 := him
+    omega
   show (hvRecursive true (preOrders true rel (j + 2)) (j + 2 - 1) (List.range rel.length) st0).1 = _
   rw [show j + 2 - 1 = j + 1 from rfl]
-  rw [hres]
+  rw [hres hlive]
   -- V_{m-1} of all nodes is the hypervolume of the shifted front
   unfold Vk
   have hmap : (List.range rel.length).map (rvec R.rel (j + 1)) = rel.map List.reverse := by
